@@ -102,6 +102,23 @@ func (t *TransactionManager) GetTransaction(id string) (*Transaction, error) {
 	return t.transaction, nil
 }
 
+// rollbackExpired is called by the rollback timer of the given transaction. The transaction is only rolled back
+// if it is still the ongoing transaction. It might have been confirmed or canceled (and even be followed by another
+// transaction) between the timer firing and the TransactionManager lock being acquired.
+func (t *TransactionManager) rollbackExpired(ctx context.Context, trans *Transaction) error {
+	t.tmMutex.Lock()
+	defer t.tmMutex.Unlock()
+	if t.transaction != trans {
+		log.Infof("Transaction: %s - rollback timer expired, but transaction is already resolved", trans.transactionId)
+		return nil
+	}
+	_, err := t.rollbacker.TransactionRollback(ctx, trans.GetRollbackTransaction(), false)
+
+	t.transaction = nil
+
+	return err
+}
+
 func (t *TransactionManager) Rollback(ctx context.Context, trans *Transaction) error {
 	verifYield("tm.rollback")
 	t.tmMutex.Lock()
